@@ -279,7 +279,7 @@ func selector(prop string, cfg *PropCfg) func(*Obligation) bool {
 			return kinds["allocbound"]
 		case "frame":
 			return kinds["frame"]
-		case "lock":
+		case "lock", "guarded":
 			return kinds["lock"]
 		case "append-alias":
 			return kinds["alias"]
